@@ -752,6 +752,24 @@ pub fn units() -> Vec<Unit> {
             TraitFn("RegionHandler", "DynamicChannelPlan", "handle_new_channel"),
         ],
     },
+    // ---- builder R (discharging N's simulation hypotheses)
+    // C08: the bit operations of `ChannelMask<N>` (types.rs) over the byte array `self.0`; `N` is a parameter
+    Unit {
+        module: "Gen.ChannelMaskFn",
+        file: "lorawan-encoding/src/types.rs",
+        more_files: vec![],
+        imports: vec![],
+        items: vec![
+            Newtype("ChannelMask"),
+            // `N` of `impl<const N: usize> ChannelMask<N>` is the length of the array `self.0: [u8; N]`
+            ExternConst("N", "usize", "(Int.ofNat self._0.length)"),
+            Fn("ChannelMask::set_bank"),
+            Fn("ChannelMask::set_channel"),
+            Fn("ChannelMask::get_index"),
+            Fn("ChannelMask::channel_enabled"),
+            Fn("ChannelMask::is_enabled"),
+        ],
+    },
     ]
 }
 
